@@ -16,8 +16,12 @@ C01 driver: one case per line → one canonical answer per line.
   batch <desc> <rows> <fields> <cols>   a RecordBatch handed out by a safe API: `wf=<0|1>` from
                                         `batchSpecB` (schema/column type, length, nullability agreement
                                         and every column well-formed)
-  kfn / kgather / kconcat / ksel        correspondence of the physical kernel models of Model.lean
-                                        with the real kernels (see below)
+  ktake / kfilter / kconcat             correspondence of the physical kernel models of Model.lean with the real
+                                        take / filter / concat kernels: `len= offs= vals= nulls= wf=` of the model
+                                        output (offsets relative to the first, the value window, declared null count,
+                                        verdict of `wellFormedB` on the model output; the harness prints the same
+                                        observation of the real output with `wf=1`)
+  hist <kind> <seed>                    a builder history (arrays it hands out arrive as `step … end` lines): `ok`
 
 When `wellFormedB d` holds the driver also runs the accessor model `decode` and reports
 `MODEL-SPEC-MISMATCH` if it fails (the theorem `wellFormed_safeAccess` says it cannot).
@@ -45,6 +49,11 @@ def showKernel (d : ArrayData) : String :=
     | none => "0"
   s!"len={d.len} offs={offs} vals={vals} nulls={nc} wf={showBool (wellFormedB d)}"
 
+def isFixed : DType → Bool
+  | .prim _ => true
+  | .fsb _ => true
+  | _ => false
+
 def parseOptNat (s : String) : Option (Option Nat) :=
   if s = "n" then some none else s.toNat?.map some
 
@@ -63,22 +72,26 @@ def handle (toks : List String) : String :=
           plusList parseArray cols with
     | some rows, some fs, some cs => s!"wf={showBool (batchSpecB (some rows) fs cs)}"
     | _, _, _ => "bad-op"
-  -- `FilterPredicate::filter_nulls` / `take_nulls`: validity of the selected slots, null count
-  -- ksel <array> <indices>: primitive / boolean-free fixed width `take` (`n` = null index)
-  | ["ksel", a, idx] =>
+  -- correspondence of the physical kernel models with the real kernels (harness: `run_kcase`)
+  -- ktake <ltype> <array> <indices> <index type>: `take` (`n` = null index)
+  | ["ktake", _lt, a, idx, _k] =>
     match parseArray a, parseList parseOptNat idx with
-    | some d, some ix => showKernel (takeFixed d ix)
+    | some d, some ix => showKernel (if isFixed d.type then takeFixed d ix else takeBytes d ix)
     | _, _ => "bad-op"
-  -- kgather <array> <indices>: `take_bytes` / `filter_bytes` (offsets = running sums, back-filled nulls)
-  | ["kgather", a, idx] =>
-    match parseArray a, parseList parseOptNat idx with
-    | some d, some ix => showKernel (takeBytes d ix)
-    | _, _ => "bad-op"
-  -- kconcat <array>+<array>…: concat of byte arrays (offset rebasing)
-  | ["kconcat", as] =>
+  -- kfilter <ltype> <array> <mask bits> <mask null bits> <optimize> <mask bit offset>: `filter`
+  | ["kfilter", _lt, a, bits, nulls, _opt, _k] =>
+    match parseArray a, parseBits bits, parseBits nulls with
+    | some d, some bs, some ns =>
+      let mask := (bs.zip ns).map (fun (b, n) => b && !n)
+      showKernel (if isFixed d.type then filterFixed d mask else filterBytes d mask)
+    | _, _, _ => "bad-op"
+  -- kconcat <ltype> <array>+<array>…: `concat`
+  | ["kconcat", _lt, as] =>
     match plusList parseArray as with
-    | some (d :: ds) => showKernel (concatBytes d ds)
+    | some (d :: ds) => showKernel (if isFixed d.type then concatFixed d ds else concatBytes d ds)
     | _ => "bad-op"
+  -- builder histories are judged through the `step … end` lines of the arrays they hand out
+  | "hist" :: _ => "ok"
   | _ => "bad-op"
 
 end ArrowModel.C01
